@@ -576,6 +576,17 @@ fn decrypt(w: &mut World, op: &Value) -> R<Value> {
 // key agreement
 
 fn point_via(bytes: &[u8], via: &str) -> Result<gm_sm2::p256_ecc::Point, ()> {
+    if let Some(h) = via.strip_prefix("jac:") {
+        // the same point in another Jacobian representation, handed over as a struct
+        if bytes.len() != 65 {
+            return Err(());
+        }
+        let z = BigUint::parse_bytes(h.as_bytes(), 16).ok_or(())?;
+        if z.is_zero() {
+            return Err(());
+        }
+        return Ok(glue::sm2_point_jacobian(&BigUint::from_bytes_be(&bytes[1..33]), &BigUint::from_bytes_be(&bytes[33..65]), &z));
+    }
     match via {
         "struct" if bytes.len() == 65 => Ok(glue::sm2_point_from_wire_unchecked(bytes).unwrap()),
         "inf" => Ok(glue::sm2_point_infinity()),
